@@ -29,6 +29,8 @@ import (
 	"fmt"
 	"io"
 	"log"
+	"os"
+	"os/exec"
 	"sort"
 	"strings"
 	"sync"
@@ -88,6 +90,10 @@ func main() {
 
 	pool := newPool()
 
+	if f := os.Getenv("VERIF_C14_CHILD"); f != "" {
+		child(f, pool)
+		return
+	}
 	if run.ReplayFile != "" {
 		replay(run, pool)
 		return
@@ -204,6 +210,36 @@ func main() {
 		report(runHistory(h, pool, true), true)
 	}
 
+	// histories run through the command-line wiring (flags -> initCertWatcher -> defaultTLSConfig), one
+	// child process each: composing twice in one process rewrites package-level settings under the
+	// feet of the first watcher
+	var wired []*history
+	for _, h := range hists {
+		if len(wired) < run.Pick(18, 150) && (h.Layout == "k8s" || h.ID%5 == 0) {
+			wired = append(wired, h)
+		}
+	}
+	wjobs := make(chan *history)
+	var wwg sync.WaitGroup
+	for w := 0; w < 4; w++ {
+		wwg.Add(1)
+		go func() {
+			defer wwg.Done()
+			for h := range wjobs {
+				runWiredChild(run, h)
+			}
+		}()
+	}
+	for _, h := range wired {
+		if run.Violations() >= stopAfterViolations {
+			break
+		}
+		wjobs <- h
+	}
+	close(wjobs)
+	wwg.Wait()
+	run.Require("histories_through_flag_wiring_judged", int64(len(wired))/2)
+
 	sort.Float64s(latencies)
 	if n := len(latencies); n > 0 {
 		run.Set("reload_convergence_latency_ms", map[string]any{
@@ -288,4 +324,93 @@ func replay(run *verdict.Run, pool *pairPool) {
 		fmt.Printf("replay: history holds in %d runs\n", times)
 	}
 	run.Finish()
+}
+
+// ---- flag-wired histories in child processes
+
+type childOut struct {
+	Violations   []childViolation `json:"violations"`
+	Inconclusive string           `json:"inconclusive"`
+	Handshakes   int              `json:"handshakes"`
+	Judged       bool             `json:"judged_for_convergence"`
+	Points       int              `json:"convergence_points"`
+}
+
+type childViolation struct {
+	Class string  `json:"class"`
+	Msg   string  `json:"msg"`
+	Wit   witness `json:"witness"`
+}
+
+func child(file string, pool *pairPool) {
+	var h history
+	b, err := os.ReadFile(file)
+	if err == nil {
+		err = json.Unmarshal(b, &h)
+	}
+	if err != nil {
+		fmt.Printf("CHILD-RESULT {\"inconclusive\":\"cannot read the history: %v\"}\n", err)
+		os.Exit(0)
+	}
+	flagWired = true
+	res := runHistory(&h, pool, true)
+	out := childOut{Inconclusive: res.inconclusive, Handshakes: res.handshakes, Judged: res.judgedFinal, Points: len(res.latencies)}
+	for _, v := range res.violations {
+		out.Violations = append(out.Violations, childViolation{v.class, v.msg, v.wit})
+	}
+	ob, _ := json.Marshal(out)
+	fmt.Printf("CHILD-RESULT %s\n", ob)
+	os.Exit(0)
+}
+
+func runWiredChild(run *verdict.Run, h *history) {
+	dir := os.Getenv("VERIF_SCRATCH")
+	f, err := os.CreateTemp(dir, "c14-child-*.json")
+	if err != nil {
+		run.Add("flag_wired_child_setup_failed", 1)
+		return
+	}
+	defer os.Remove(f.Name())
+	b, _ := json.Marshal(h)
+	f.Write(b)
+	f.Close()
+	attempt := func() (*childOut, string) {
+		cmd := exec.Command(os.Args[0])
+		cmd.Env = append(os.Environ(), "VERIF_C14_CHILD="+f.Name())
+		outb, err := cmd.CombinedOutput()
+		for _, line := range strings.Split(string(outb), "\n") {
+			if strings.HasPrefix(line, "CHILD-RESULT ") {
+				var o childOut
+				if json.Unmarshal([]byte(line[len("CHILD-RESULT "):]), &o) == nil {
+					return &o, ""
+				}
+			}
+		}
+		t := strings.TrimSpace(string(outb))
+		if len(t) > 600 {
+			t = t[len(t)-600:]
+		}
+		return nil, fmt.Sprintf("child ended without a result (%v): %s", err, t)
+	}
+	o, bad := attempt()
+	if o != nil && o.Inconclusive != "" && len(o.Violations) == 0 {
+		o, bad = attempt() // undecided under load: once more
+	}
+	run.Eval(1)
+	run.Distinct("wired|" + h.key())
+	run.Add("histories_through_flag_wiring", 1)
+	if o == nil {
+		run.Inconclusive("flag-wired history #%d (%s): %s", h.ID, h.brief(), bad)
+		return
+	}
+	run.Add("handshakes_observed_flag_wired", int64(o.Handshakes))
+	if o.Judged {
+		run.Add("histories_through_flag_wiring_judged", 1)
+	}
+	for _, v := range o.Violations {
+		run.Violation(v.Class, v.Wit, "history #%d through the command-line wiring (%s, %d steps: %s): %s", h.ID, h.Layout, len(h.Steps), h.brief(), v.Msg)
+	}
+	if o.Inconclusive != "" && len(o.Violations) == 0 {
+		run.Inconclusive("flag-wired history #%d (%s): %s (twice)", h.ID, h.brief(), o.Inconclusive)
+	}
 }
